@@ -9,6 +9,7 @@
    file exactly once in its owner's layer, per-layer parent directories). *)
 From Apko Require Export Base.Prelude Model.Tar Spec.TarSpec Model.Layers Spec.LayersSpec.
 From Apko Require Export Corr.C06.
+From Apko Require Import Model.BuildSteps Generated.C10Steps.
 Open Scope string_scope. Open Scope list_scope.
 
 Definition mkp (n v o : string) (sz : N) (reps : list string) : pkg :=
@@ -103,7 +104,26 @@ Definition check_c10s (c : c10s_case) : list string :=
    unchanged, in the layer of its owner's group or the top layer; per-layer
    parent directories; one layer per group plus the top layer) and the budget. *)
 Record c10e_case := { e_budget : Z; e_gs : list (list string); e_own : list (path * string);
-                      e_single : list entry; e_layers : list (list entry) }.
+                      e_single : list entry; e_layers : list (list entry);
+                      (* the order of the build steps, as observed on the filesystem interface by a recording
+                         wrapper around the real tarfs (first occurrence of each marker), and the conditions of
+                         the source that hold in the configuration (all others are false) *)
+                      e_conds_single : list (string * bool); e_events_single : list string;
+                      e_conds_multi : list (string * bool); e_events_multi : list string }.
+
+(* Model/BuildSteps.v over the step lists goextract read from the source: the markers of the
+   primitive calls the configuration executes, first occurrences, restricted to the markers that
+   are always observable plus those this run showed *)
+Fixpoint first_occ (seen : list string) (l : list string) : list string :=
+  match l with
+  | [] => []
+  | x :: r => if in_list x seen then first_occ seen r else x :: first_occ (x :: seen) r
+  end.
+Definition model_markers (conds : list (string * bool)) (observed : list string) : list string :=
+  let t := build_trace c10_steps (val_fun conds) in
+  filter (fun m => in_list m always_observable || in_list m observed) (first_occ [] (markers (fst t))).
+Definition check_order (conds : list (string * bool)) (observed : list string) : list string :=
+  tag_if (negb (str_list_eqb (model_markers conds observed) observed)) "mismatch:build-step-order".
 
 Definition blank_content (p : path) (e : entry) : entry :=
   if path_eqb (e_path e) p then
@@ -135,6 +155,7 @@ Definition check_c10e (c : c10e_case) : list string :=
    then "viol:flatten-differs/etc-apk-repositories" ::
         layers_tags (e_gs c) own (map (blank_content apk_repositories) single) (map (map (blank_content apk_repositories)) layers)
    else layers_tags (e_gs c) own single layers) ++
+  check_order (e_conds_single c) (e_events_single c) ++ check_order (e_conds_multi c) (e_events_multi c) ++
   (if (e_budget c =? 0)%Z then
      tag_if (Nat.ltb 1 (List.length layers)) "viol:group-count-exceeds-budget/budget-zero" ++
      tag_if (Nat.ltb 2 (List.length layers)) "viol:layer-count-exceeds-budget-plus-top"
